@@ -211,6 +211,11 @@ func (w *Wallet) txToOutputs(outputs []*wire.TxOut,
 				eligibleSelectedUtxo = append(
 					eligibleSelectedUtxo, e,
 				)
+
+				// An outpoint can only be spent once per
+				// transaction: a repeated selection must not
+				// find it eligible a second time.
+				delete(eligibleByOutpoint, outpoint)
 			}
 
 			inputSource = constantInputSource(eligibleSelectedUtxo)
